@@ -59,6 +59,10 @@ class Highlighter(object):
         self._ui = self.UI[supports_utf8]
 
     def code_snippet(self, source, line, lines_before=2, lines_after=2):
+        if not source:
+            # The source is not available (code run by exec(), a deleted file)
+            return []
+
         token_lines = self.highlighted_lines(source)
         token_lines = self.line_numbers(token_lines, line)
 
@@ -97,7 +101,9 @@ class Highlighter(object):
 
             if token_type == tokenize.ENDMARKER:
                 # End of source
-                line += "<{}>{}</>".format(self._theme[current_type], buffer)
+                if current_type is not None:
+                    line += "<{}>{}</>".format(self._theme[current_type], buffer)
+
                 lines.append(line)
                 break
 
